@@ -67,8 +67,8 @@ Definition op_req (o : cop) : option nat :=
 Definition ev_handle (e : cev) : option nat :=
   match e with
   | EIn o => op_handle o
-  | EHCb h | ECloseCb h | ELeak h _ | ETouch h => Some h
-  | EReqCb _ _ _ => None
+  | EHCb h | ECloseCb h | ELeak h _ => Some h
+  | EReqCb _ _ _ | ETouch _ => None
   end.
 
 Definition ev_req (e : cev) : option nat :=
@@ -125,7 +125,6 @@ Proof. unfold chs. apply flat_map_app. Qed.
 Record HOK (dl : list centry) (s : cstate) (h : nat) (x : hst) : Prop := {
   k_closed : h_closed x = true -> h_closing x = true /\ h_ctxs x = [];
   k_ch : In (CH h) (dl ++ clq s) -> h_closing x = true /\ h_closed x = false /\ h_ctxs x = [];
-  k_ct : forall c, In (CT h c) (dl ++ clq s) -> In c (map c_id (h_ctxs x));
   k_own : forall r, In r (qreqs x) -> lookup r (owner s) = Some h;
   k_owed : h_closing x = true -> h_closed x = false -> In (CH h) (dl ++ clq s) \/ h_ctxs x <> [];
   k_led : h_closing x = true -> h_ledger x = [];
@@ -228,8 +227,7 @@ Lemma Inv_lists dl s dl' q' :
   (forall h, In (CH h) (dl' ++ q') -> In (CH h) (dl ++ clq s) \/
      (hvalid s h = true /\ h_closing (hget s h) = true /\ h_closed (hget s h) = false /\
       h_ctxs (hget s h) = [])) ->
-  (forall h c, In (CT h c) (dl' ++ q') -> In (CT h c) (dl ++ clq s) \/
-     (hvalid s h = true /\ In c (map c_id (h_ctxs (hget s h))))) ->
+  (forall h c, In (CT h c) (dl' ++ q') -> In (CT h c) (dl ++ clq s) \/ hvalid s h = true) ->
   (forall h, In (CH h) (dl ++ clq s) -> In (CH h) (dl' ++ q') \/ h_closed (hget s h) = true) ->
   NoDup (chs (dl' ++ q')) ->
   Inv dl' (set_clq s q').
@@ -240,13 +238,12 @@ Proof.
     change (hget (set_clq s q') h) with (hget s h).
     destruct (j_h0 h Hv). constructor; try assumption.
     + change (clq (set_clq s q')) with q'. intros H. destruct (A h H) as [H1|(_ & H1 & H2 & H3)]; auto.
-    + change (clq (set_clq s q')) with q'. intros c H. destruct (B h c H) as [H1|(_ & H1)]; auto.
     + change (clq (set_clq s q')) with q'. intros H1 H2. destruct (k_owed0 H1 H2) as [H3|H3]; auto.
       destruct (C h H3) as [H4|H4]; auto. congruence.
   - change (clq (set_clq s q')) with q'. intros e He.
     destruct e as [h|h c].
     + destruct (A h He) as [H1|(H1 & _)]; auto. apply (j_valid0 (CH h) H1).
-    + destruct (B h c He) as [H1|(H1 & _)]; auto. apply (j_valid0 (CT h c) H1).
+    + destruct (B h c He) as [H1|H1]; auto. apply (j_valid0 (CT h c) H1).
 Qed.
 
 Lemma NoDup_chs_add dl q h :
@@ -273,10 +270,10 @@ Proof.
 Qed.
 
 Lemma Inv_push_ct dl s h c :
-  Inv dl s -> hvalid s h = true -> In c (map c_id (h_ctxs (hget s h))) ->
+  Inv dl s -> hvalid s h = true ->
   Inv dl (push_clq s (CT h c)).
 Proof.
-  intros I Hv H1. unfold push_clq. apply Inv_lists with (dl := dl); auto.
+  intros I Hv. unfold push_clq. apply Inv_lists with (dl := dl); auto.
   - intros h' H. apply in_app_cons in H. destruct H as [E|H]; auto. discriminate.
   - intros h' c' H. apply in_app_cons in H. destruct H as [E|H]; auto. inversion E; subst. right; auto.
   - intros h' H. left. apply in_app_cons. auto.
@@ -304,7 +301,6 @@ Proof.
       assert (NV : hvalid s (length (hs s)) = false) by (unfold hvalid; apply Nat.ltb_irrefl).
       constructor; simpl; try discriminate; try tauto; try congruence.
       * intros H. specialize (j_valid0 _ H). simpl in j_valid0. congruence.
-      * intros c H. specialize (j_valid0 _ H). simpl in j_valid0. congruence.
       * split; [|discriminate]. intros H. apply j_evv0 in H. congruence.
     + assert (Hv' : hvalid s h = true) by (apply hvalid_lt; lia).
       rewrite hget_app_old by exact Hv'. destruct (j_h0 h Hv'). constructor; assumption.
@@ -462,14 +458,13 @@ Proof.
       { apply Inv_upd; auto. destruct K. constructor; cbn [h_closed h_closing h_ctxs h_ledger qreqs h_conn h_wq h_cq h_shut w_ctxs h_ty]; auto.
         - intros H. destruct (k_closed0 H). congruence.
         - intros H. destruct (k_ch0 H) as (_ & _ & H'). congruence.
-        - intros c' H. specialize (k_ct0 c' H). rewrite Ec in k_ct0. exact k_ct0.
         - intros H1 H2. right. discriminate.
         - intros _. apply k_ty0. rewrite Ec. discriminate. }
       assert (V1 : hvalid s1 h = true) by (unfold s1; rewrite hvalid_upd; exact Hv).
       assert (G1 : hget s1 h = w_ctxs (mkC (c_id c) (c_stat c) 2 :: rest) (hget s h))
         by (unfold s1; apply hget_upd_same; exact Hv).
       assert (I2 : Inv dl (push_clq s1 (CT h (c_id c)))).
-      { apply Inv_push_ct; auto. rewrite G1. cbn. auto. }
+      { apply Inv_push_ct; auto. }
       assert (V2 : hvalid (push_clq s1 (CT h (c_id c))) h = true) by exact V1.
       assert (I3 : Inv dl (upd_h (push_clq s1 (CT h (c_id c))) h (w_active false))).
       { apply Inv_upd; auto. eapply HOK_frame; [apply (j_h _ _ I2 h V2)|..]; auto.
@@ -524,10 +519,9 @@ Qed.
 Lemma HOK_lists dl s h x dl' s' :
   HOK dl s h x -> owner s' = owner s -> hist s' = hist s ->
   (In (CH h) (dl' ++ clq s') <-> In (CH h) (dl ++ clq s)) ->
-  (forall c, In (CT h c) (dl' ++ clq s') -> In (CT h c) (dl ++ clq s)) ->
   HOK dl' s' h x.
 Proof.
-  intros K A B C D. destruct K. constructor; auto.
+  intros K A B C. destruct K. constructor; auto.
   - intros H. apply k_ch0. apply C. exact H.
   - intros r H. rewrite A. auto.
   - intros H1 H2. destruct (k_owed0 H1 H2); auto. left. apply C. assumption.
@@ -578,11 +572,11 @@ Lemma close_like dl s h s' y ne :
   hist s' = hist s -> owner s' = owner s -> length (hs s') = length (hs s) ->
   (forall h', h' <> h -> hget s' h' = hget s h') -> hget s' h = y ->
   h_closing y = true -> h_closed y = false -> h_ledger y = [] -> h_ty y = h_ty (hget s h) ->
-  qreqs y = qreqs (hget s h) -> map c_id (h_ctxs y) = map c_id (h_ctxs (hget s h)) ->
+  qreqs y = qreqs (hget s h) -> (h_ctxs y = [] <-> h_ctxs (hget s h) = []) ->
   clq s' = match ne with Some e => e :: clq s | None => clq s end ->
   match ne with
   | Some (CH h') => h' = h /\ h_ctxs y = []
-  | Some (CT h' c) => h' = h /\ In c (map c_id (h_ctxs y))
+  | Some (CT h' c) => h' = h /\ h_ctxs y <> []
   | None => h_ctxs y <> []
   end ->
   Step dl s s'.
@@ -604,20 +598,15 @@ Proof.
         -- intros H. congruence.
         -- intros H. apply MEM in H. destruct H as [H|H]; [|tauto].
            subst ne. destruct Q2 as (_ & Q2). auto.
-        -- intros c H. apply MEM in H. destruct H as [H|H].
-           ++ subst ne. destruct Q2 as (_ & Q2). exact Q2.
-           ++ rewrite Y6. auto.
         -- intros _ _. destruct ne as [[h'|h' c]|].
            ++ destruct Q2 as (-> & _). left. apply MEM. auto.
-           ++ destruct Q2 as (_ & Q2). right. intros E0. rewrite E0 in Q2. exact Q2.
+           ++ destruct Q2 as (_ & Q2). right. exact Q2.
            ++ right. exact Q2.
         -- rewrite Y2, <- Hd. exact k_ev0.
-        -- intros H. rewrite Y4. apply k_ty0. intros E0. rewrite E0 in Y6.
-           destruct (h_ctxs y); [auto|discriminate].
+        -- intros H. rewrite Y4. apply k_ty0. intros E0. apply H. apply Y6. exact E0.
       * rewrite D by exact Hne. apply HOK_lists with (dl := dl) (s := s); auto.
         -- apply (j_h _ _ I h' Hv').
         -- rewrite MEM. split; auto. intros [H|H]; auto. subst ne. destruct Q2 as (Q2 & _). congruence.
-        -- intros c. rewrite MEM. intros [H|H]; auto. subst ne. destruct Q2 as (Q2 & _). congruence.
     + intros e He. apply MEM in He. destruct He as [He|He].
       * subst ne. destruct e; destruct Q2 as (-> & _); exact Hv.
       * apply (j_valid _ _ I e He).
@@ -655,7 +644,7 @@ Proof.
   assert (O1 : forall h', h' <> h -> hget s1 h' = hget s h')
     by (intros h' Hne; unfold s1; apply hget_upd_other; auto).
   assert (PUSH : h_ctxs (hget s h) = [] -> Step dl s (push_clq s1 (CH h))).
-  { intros Ec. apply close_like with (h := h) (y := g (hget s h)) (ne := Some (CH h)); auto.
+  { intros Ec. apply close_like with (h := h) (y := g (hget s h)) (ne := Some (CH h)); auto; try (cbn; tauto).
     unfold s1. cbn [push_clq set_clq hs]. apply len_upd_h. }
   destruct (h_ty (hget s h)) eqn:Ty;
     try (apply PUSH; destruct (h_ctxs (hget s h)) eqn:Ec; auto;
@@ -666,14 +655,14 @@ Proof.
   destruct (h_active (hget s h)) eqn:Ea.
   2:{ rewrite G1. cbn [g h_ctxs w_ledger w_closing].
       destruct (h_ctxs (hget s h)) as [|c rest] eqn:Ec; [apply PUSH; reflexivity|].
-      apply close_like with (h := h) (y := g (hget s h)) (ne := None); auto.
+      apply close_like with (h := h) (y := g (hget s h)) (ne := None); auto; try (cbn; tauto).
       - apply len_upd_h.
       - cbn. rewrite Ec. discriminate. }
   change (h_ctxs (g (hget s h))) with (h_ctxs (hget s h)).
   destruct (h_ctxs (hget s h)) as [|c rest] eqn:Ec.
   - (* active, no context *)
     rewrite hget_upd_same by exact V1. rewrite G1. cbn [g h_ctxs w_active w_ledger w_closing]. rewrite Ec.
-    apply close_like with (h := h) (y := w_active false (g (hget s h))) (ne := Some (CH h)); auto.
+    apply close_like with (h := h) (y := w_active false (g (hget s h))) (ne := Some (CH h)); auto; try (cbn; tauto).
     + cbn [push_clq set_clq hs]. rewrite len_upd_h. apply len_upd_h.
     + intros h' Hne. rewrite hget_push, hget_upd_other by auto. auto.
     + rewrite hget_push, hget_upd_same by exact V1. rewrite G1. reflexivity.
@@ -684,14 +673,14 @@ Proof.
       { unfold s2. rewrite hget_upd_same by (rewrite hvalid_push, hvalid_upd; exact V1).
         rewrite hget_push, hget_upd_same by exact V1. rewrite G1. reflexivity. }
       rewrite G2. cbn [y h_ctxs w_active w_ctxs].
-      apply close_like with (h := h) (y := y) (ne := Some (CT h (c_id c))); auto.
+      apply close_like with (h := h) (y := y) (ne := Some (CT h (c_id c))); auto; try (cbn; tauto).
       * unfold s2. rewrite len_upd_h. cbn [push_clq set_clq hs]. rewrite len_upd_h. apply len_upd_h.
       * intros h' Hne. unfold s2. rewrite hget_upd_other by auto. rewrite hget_push, hget_upd_other by auto. auto.
-      * cbn. rewrite Ec. reflexivity.
-      * split; auto. cbn. auto.
+      * cbn. rewrite Ec. split; discriminate.
+      * split; auto. cbn. discriminate.
     + set (y := w_active false (g (hget s h))).
       rewrite hget_upd_same by exact V1. rewrite G1. cbn [g h_ctxs w_active w_ledger w_closing]. rewrite Ec.
-      apply close_like with (h := h) (y := y) (ne := None); auto.
+      apply close_like with (h := h) (y := y) (ne := None); auto; try (cbn; tauto).
       * rewrite len_upd_h. apply len_upd_h.
       * intros h' Hne. rewrite hget_upd_other by auto. auto.
       * rewrite hget_upd_same by exact V1. rewrite G1. reflexivity.
@@ -796,11 +785,11 @@ Proof.
     + destruct (h_conn (hget s h)) eqn:Ec; [apply Step_refl; exact I|].
       apply submit_step; auto. intros r'. rewrite !in_qreqs. cbn. rewrite Ec.
       intros [H|H]; [inversion H; auto|right; right; exact H].
-    + apply submit_step; auto. intros r'. rewrite !in_qreqs. cbn. rewrite in_app_iff. simpl. tauto.
+    + apply submit_step; auto. intros r'. rewrite !in_qreqs. cbn. rewrite in_app_iff. simpl. intuition (subst; auto).
     + destruct (h_shut (hget s h)) eqn:Ec; [apply Step_refl; exact I|].
       apply submit_step; auto. intros r'. rewrite !in_qreqs. cbn. rewrite Ec.
       intros [H|[H|[H|H]]]; [tauto|tauto|tauto|inversion H; auto].
-    + apply submit_step; auto. intros r'. rewrite !in_qreqs. cbn. rewrite in_app_iff. simpl. tauto.
+    + apply submit_step; auto. intros r'. rewrite !in_qreqs. cbn. rewrite in_app_iff. simpl. intuition (subst; auto).
   - (* ODone *)
     destruct (lookup r (owner s)) as [h|] eqn:Lr; [|apply Step_refl; exact I].
     destruct (h_wq (hget s h)) as [|r' rest] eqn:Ew; [apply Step_refl; exact I|].
@@ -863,3 +852,678 @@ Proof.
     + split; [|apply Frame_emit]. apply Inv_emit_op with (h := h); auto.
     + intros I1. apply c_close_step; auto.
 Qed.
+
+Lemma capis_step dl os : forall s, Inv dl s -> Step dl s (capis s os).
+Proof.
+  induction os as [|o os IH]; intros s I; cbn [capis].
+  - apply Step_refl. exact I.
+  - apply Step_trans with (b := capi s o); [apply capi_step; exact I|]. intros I1. apply IH. exact I1.
+Qed.
+
+(* a callback: the event, then the scripted behaviour *)
+Lemma ccallback_step dl s beh e :
+  Inv dl s ->
+  (forall h, e <> ECloseCb h) -> (forall h r, e <> ELeak h r) ->
+  (forall h, about s e h -> hvalid s h = true -> h_closed (hget s h) = false) ->
+  (forall r, ev_req e = Some r -> lookup r (owner s) <> None) ->
+  Step dl s (ccallback s beh e).
+Proof.
+  intros I A B C D. unfold ccallback.
+  apply Step_trans with (b := set_ncb (emit s e) (S (ncb s))).
+  - split; [|apply Frame_same_hs; reflexivity].
+    apply Inv_ext with (s := emit s e); auto. apply Inv_emit; auto.
+  - intros I1. apply capis_step. exact I1.
+Qed.
+
+(* the callback of a request accepted on a handle that is not closed *)
+Lemma reqcb_step dl s beh r st cl h :
+  Inv dl s -> lookup r (owner s) = Some h -> h_closed (hget s h) = false ->
+  Step dl s (ccallback s beh (EReqCb r st cl)).
+Proof.
+  intros I L Hc. apply ccallback_step; auto; try discriminate.
+  - intros h' [Ha|(r' & Hr & Hl)] _; [discriminate|].
+    simpl in Hr. inversion Hr; subst. assert (h' = h) by congruence. subst. exact Hc.
+  - simpl. intros r' Hr. inversion Hr; subst. congruence.
+Qed.
+
+Lemma run_cq_step dl beh h l : forall s,
+  Inv dl s -> hvalid s h = true -> h_closed (hget s h) = false ->
+  (forall r st, In (r, st) l -> lookup r (owner s) = Some h) ->
+  Step dl s (run_cq l h s beh).
+Proof.
+  induction l as [|[r st] l IH]; intros s I Hv Hc Ho; cbn [run_cq].
+  - apply Step_refl. exact I.
+  - set (s1 := ccallback s beh (EReqCb r (cbstatus (h_ty (hget s h)) st) (h_closing (hget s h)))).
+    assert (S1 : Step dl s s1).
+    { apply reqcb_step with (h := h); auto. apply (Ho r st). left. reflexivity. }
+    apply Step_trans with (b := s1); [exact S1|]. intros I1.
+    destruct S1 as [_ [F1 F2]]. destruct (F1 h Hv) as (V1 & C1 & _).
+    apply IH; auto.
+    + congruence.
+    + intros r' st' H. apply F2. apply (Ho r' st'). right. exact H.
+Qed.
+
+Lemma in_cancelled r st l : In (r, st) (cancelled l) -> In r l.
+Proof.
+  unfold cancelled. rewrite in_map_iff. intros (x & E & H). inversion E; subst. exact H.
+Qed.
+
+Lemma flush_and_run_step dl s beh h :
+  Inv dl s -> hvalid s h = true -> h_closed (hget s h) = false ->
+  Step dl s (flush_and_run s beh h).
+Proof.
+  intros I Hv Hc. unfold flush_and_run.
+  pose proof (j_h _ _ I h Hv) as K.
+  set (f := fun x => w_cq [] (w_wq [] x)).
+  apply Step_trans with (b := upd_h s h f).
+  - split; [|apply Frame_upd; auto].
+    apply Inv_upd; auto. eapply HOK_frame; eauto.
+    + intros r. rewrite !in_qreqs. unfold f. cbn. tauto.
+    + apply (k_led _ _ _ _ K).
+  - intros I1. apply run_cq_step; auto.
+    + rewrite hvalid_upd. exact Hv.
+    + rewrite hget_upd_same by exact Hv. exact Hc.
+    + intros r st H. change (owner (upd_h s h f)) with (owner s).
+      apply (k_own _ _ _ _ K). apply in_qreqs. apply in_app_or in H. destruct H as [H|H].
+      * right. right. left. apply in_map_iff. exists (r, st). auto.
+      * right. left. eapply in_cancelled; eauto.
+Qed.
+
+Lemma drop_req_step dl s beh h f r st cl :
+  Inv dl s -> hvalid s h = true -> h_closed (hget s h) = false ->
+  In r (qreqs (hget s h)) ->
+  h_closing (f (hget s h)) = h_closing (hget s h) -> h_closed (f (hget s h)) = h_closed (hget s h) ->
+  h_ctxs (f (hget s h)) = h_ctxs (hget s h) -> h_ty (f (hget s h)) = h_ty (hget s h) ->
+  h_ledger (f (hget s h)) = h_ledger (hget s h) ->
+  (forall r', In r' (qreqs (f (hget s h))) -> In r' (qreqs (hget s h))) ->
+  Step dl s (ccallback (upd_h s h f) beh (EReqCb r st cl)).
+Proof.
+  intros I Hv Hc Hr A B C T L Q.
+  pose proof (j_h _ _ I h Hv) as K.
+  apply Step_trans with (b := upd_h s h f).
+  - split; [|apply Frame_upd; auto; congruence].
+    apply Inv_upd; auto. eapply HOK_frame; eauto. rewrite A, L. apply (k_led _ _ _ _ K).
+  - intros I1. apply reqcb_step with (h := h); auto.
+    + apply (k_own _ _ _ _ K). exact Hr.
+    + rewrite hget_upd_same by exact Hv. congruence.
+Qed.
+
+Lemma cancel_connect_step dl s beh h :
+  Inv dl s -> hvalid s h = true -> h_closed (hget s h) = false ->
+  Step dl s (cancel_connect s beh h).
+Proof.
+  intros I Hv Hc. unfold cancel_connect.
+  destruct (h_conn (hget s h)) as [r|] eqn:Ec; [|apply Step_refl; exact I].
+  apply drop_req_step; auto.
+  - apply in_qreqs. auto.
+  - intros r'. rewrite !in_qreqs. cbn. intros [H|H]; [discriminate|auto].
+Qed.
+
+Lemma drain_closing_step dl s beh h :
+  Inv dl s -> hvalid s h = true -> h_closed (hget s h) = false ->
+  Step dl s (drain_closing s beh h).
+Proof.
+  intros I Hv Hc. unfold drain_closing.
+  destruct (h_shut (hget s h)) as [r|] eqn:Ec; [|apply Step_refl; exact I].
+  apply drop_req_step; auto.
+  - apply in_qreqs. auto.
+  - intros r'. rewrite !in_qreqs. cbn. intros [H|[H|[H|H]]]; auto. discriminate.
+Qed.
+
+Lemma Step_valid_open dl s s' h :
+  Step dl s s' -> hvalid s h = true -> h_closed (hget s h) = false ->
+  hvalid s' h = true /\ h_closed (hget s' h) = false.
+Proof. intros [_ [F _]] Hv Hc. destruct (F h Hv) as (A & B & _). split; congruence. Qed.
+
+(* ------------------------------------------------------------------ *)
+(* the closing phase                                                  *)
+(* ------------------------------------------------------------------ *)
+Lemma head_facts h rest s :
+  Inv (CH h :: rest) s ->
+  hvalid s h = true /\ h_closing (hget s h) = true /\ h_closed (hget s h) = false /\
+  h_ctxs (hget s h) = [] /\ ~ In (CH h) (rest ++ clq s) /\ NoDup (chs (rest ++ clq s)).
+Proof.
+  intros I.
+  assert (Hv : hvalid s h = true) by (apply (j_valid _ _ I (CH h)); left; reflexivity).
+  destruct (k_ch _ _ _ _ (j_h _ _ I h Hv)) as (A & B & C); [left; reflexivity|].
+  pose proof (j_nd _ _ I) as N. simpl in N. inversion N; subst.
+  splits; auto. rewrite <- chs_in. assumption.
+Qed.
+
+(* CLOSED is set and the close callback event appended: the handle leaves the batch *)
+Lemma Inv_close h rest s :
+  Inv (CH h :: rest) s -> Inv rest (emit (upd_h s h (w_closed true)) (ECloseCb h)).
+Proof.
+  intros I. destruct (head_facts _ _ _ I) as (Hv & Hcl & Hd & Hx & Hn & Hnd).
+  pose proof (j_h _ _ I h Hv) as K.
+  set (s' := emit (upd_h s h (w_closed true)) (ECloseCb h)).
+  assert (VV : forall h', hvalid s' h' = hvalid s h') by (intros h'; unfold s'; apply hvalid_upd).
+  assert (NE : ~ In (ECloseCb h) (hist s)).
+  { intros H. apply (k_ev _ _ _ _ K) in H. congruence. }
+  constructor.
+  - intros h' Hv'. rewrite VV in Hv'.
+    destruct (Nat.eq_dec h' h) as [->|Hne].
+    + change (hget s' h) with (hget (upd_h s h (w_closed true)) h). rewrite hget_upd_same by exact Hv.
+      destruct K. constructor; cbn [h_closed h_closing h_ctxs h_ledger h_ty w_closed]; auto.
+      * intros H. exfalso. apply Hn. exact H.
+      * intros _ H. discriminate.
+      * split; auto. intros _. left. reflexivity.
+    + change (hget s' h') with (hget (upd_h s h (w_closed true)) h'). rewrite hget_upd_other by auto.
+      destruct (j_h _ _ I h' Hv'). constructor; auto.
+      * intros H. apply k_ch0. right. exact H.
+      * intros H1 H2. destruct (k_owed0 H1 H2) as [[E|H]|H]; auto. inversion E. congruence.
+      * unfold s'. cbn [hist emit]. simpl. rewrite <- k_ev0. split; [intros [E|H]; auto; inversion E; congruence|auto].
+  - intros e He. assert (H0 : In e ((CH h :: rest) ++ clq s)) by (right; exact He).
+    pose proof (j_valid _ _ I e H0) as H1. destruct e; rewrite VV; exact H1.
+  - exact Hnd.
+  - unfold s'. cbn [hist emit]. intros h' [E|H]; rewrite VV.
+    + inversion E; subst. exact Hv.
+    + apply (j_evv _ _ I). exact H.
+  - unfold s'. cbn [hist emit]. simpl. constructor; [|apply (j_once _ _ I)].
+    rewrite closecbs_in. exact NE.
+  - intros later e earlier h' Hs Hin. unfold s' in Hs. cbn [hist emit] in Hs.
+    destruct later as [|e1 later]; simpl in Hs; inversion Hs; subst.
+    + intros [Ha|(r & Hr & _)]; [|discriminate]. simpl in Ha. inversion Ha; subst. auto.
+    + intros Ha. eapply (j_na _ _ I); eauto.
+  - unfold s'. cbn [hist emit]. intros e r [<-|H] Hr; [discriminate|].
+    apply (j_ro _ _ I e r H Hr).
+  - intros r h' H. rewrite VV. apply (j_ov _ _ I r h' H).
+  - unfold s'. cbn [hist emit]. intros h' r [E|H]; [discriminate|]. apply (j_noleak _ _ I h' r H).
+Qed.
+
+Lemma deliver_close_inv h rest s beh :
+  Inv (CH h :: rest) s -> Inv rest (deliver_close s beh h).
+Proof.
+  intros I. destruct (head_facts _ _ _ I) as (Hv & Hcl & Hd & Hx & Hn & Hnd).
+  unfold deliver_close. rewrite (k_led _ _ _ _ (j_h _ _ I h Hv) Hcl). cbn [emit_leaks].
+  unfold ccallback.
+  apply capis_step.
+  apply Inv_ext with (s := emit (upd_h s h (w_closed true)) (ECloseCb h)); auto.
+  apply Inv_close. exact I.
+Qed.
+
+Lemma Inv_requeue h rest s :
+  Inv (CH h :: rest) s -> Inv rest (push_clq (emit s (ETouch h)) (CH h)).
+Proof.
+  intros I. destruct (head_facts _ _ _ I) as (Hv & Hcl & Hd & Hx & Hn & Hnd).
+  assert (I1 : Inv (CH h :: rest) (emit s (ETouch h))).
+  { apply Inv_emit; auto; try discriminate.
+    intros h' [Ha|(r & Hr & _)]; discriminate. }
+  unfold push_clq. apply Inv_lists with (dl := CH h :: rest); auto.
+  - intros h' H. left. apply in_app_cons in H. simpl. destruct H as [E|H]; auto.
+  - intros h' c H. left. apply in_app_cons in H. simpl. destruct H as [E|H]; auto.
+  - intros h' H. left. apply in_app_cons. simpl in H. destruct H as [E|H]; auto.
+  - apply NoDup_chs_add; auto.
+Qed.
+
+Lemma finish_close_inv h rest s beh :
+  Inv (CH h :: rest) s -> Inv rest (finish_close s beh h).
+Proof.
+  intros I. destruct (head_facts _ _ _ I) as (Hv & Hcl & Hd & Hx & Hn & Hnd).
+  unfold finish_close.
+  destruct (h_ty (hget s h)) eqn:Ty; try (apply deliver_close_inv; exact I).
+  - (* stream *)
+    assert (S1 : Step (CH h :: rest) s (cancel_connect s beh h)) by (apply cancel_connect_step; auto).
+    destruct (Step_valid_open _ _ _ _ S1 Hv Hd) as (V1 & D1).
+    assert (S2 : Step (CH h :: rest) (cancel_connect s beh h) (flush_and_run (cancel_connect s beh h) beh h))
+      by (apply flush_and_run_step; auto; apply S1).
+    destruct (Step_valid_open _ _ _ _ S2 V1 D1) as (V2 & D2).
+    assert (S3 : Step (CH h :: rest) (flush_and_run (cancel_connect s beh h) beh h)
+                   (drain_closing (flush_and_run (cancel_connect s beh h) beh h) beh h))
+      by (apply drain_closing_step; auto; apply S2).
+    apply deliver_close_inv. apply S3.
+  - (* udp *)
+    apply deliver_close_inv. apply flush_and_run_step; auto.
+  - (* signal *)
+    destruct (0 <? h_sigpend (hget s h)); [apply Inv_requeue|apply deliver_close_inv]; exact I.
+Qed.
+
+Lemma Inv_drop_ct h c rest s : Inv (CT h c :: rest) s -> Inv rest s.
+Proof.
+  intros I. destruct s as [a b c0 d e f].
+  change (Inv rest (set_clq (mkCS a b c0 d e f) b)).
+  apply Inv_lists with (dl := CT h c :: rest); auto.
+  - intros h' H. left. right. exact H.
+  - intros h' c' H. left. right. exact H.
+  - intros h' H. left. simpl in H. destruct H as [E|H]; [discriminate|exact H].
+  - apply (j_nd _ _ I).
+Qed.
+
+Ltac hok_tail :=
+  try (intros; congruence);
+  try (intros; exfalso; auto; fail);
+  try (intros; right; discriminate);
+  try (intros; left; cbn; apply in_app_cons; auto; fail);
+  try (let H := fresh in intros H; exfalso; apply H; reflexivity).
+
+Lemma fp_timer_closed_inv dl s h c : Inv dl s -> hvalid s h = true -> Inv dl (fp_timer_closed s h c).
+Proof.
+  intros I Hv. unfold fp_timer_closed.
+  pose proof (j_h _ _ I h Hv) as K.
+  destruct (h_ctxs (hget s h)) as [|c0 rest] eqn:Ec; [exact I|].
+  assert (Hd : h_closed (hget s h) = false).
+  { destruct (h_closed (hget s h)) eqn:E; auto. destruct (k_closed _ _ _ _ K E). congruence. }
+  assert (NC : ~ In (CH h) (dl ++ clq s)).
+  { intros H. destruct (k_ch _ _ _ _ K H) as (_ & _ & H'). congruence. }
+  assert (Ty : h_ty (hget s h) = TFsPoll) by (apply (k_ty _ _ _ _ K); rewrite Ec; discriminate).
+  destruct (Nat.eqb (c_id c0) c).
+  - assert (G : hget (upd_h s h (w_ctxs rest)) h = w_ctxs rest (hget s h)) by (apply hget_upd_same; exact Hv).
+    destruct rest as [|c1 rest].
+    + destruct (h_closing (hget s h)) eqn:Ecl.
+      * (* the last context of a closing handle: the handle is queued *)
+        apply Inv_step_gen with (dl := dl) (s := s); auto.
+        -- cbn [push_clq set_clq hs]. apply len_upd_h.
+        -- intros h' Hv'. rewrite hget_push. destruct (Nat.eq_dec h' h) as [->|Hne].
+           ++ rewrite G. destruct K.
+              constructor; cbn [h_closed h_closing h_ctxs h_ledger h_ty w_ctxs qreqs h_conn h_wq h_cq h_shut]; auto; hok_tail.
+           ++ rewrite hget_upd_other by auto.
+              apply HOK_lists with (dl := dl) (s := s); auto; [apply (j_h _ _ I h' Hv')|].
+              cbn [push_clq set_clq clq upd_h set_hs]. rewrite in_app_cons. split; auto.
+              intros [E|H]; auto. inversion E. congruence.
+        -- cbn [push_clq set_clq clq upd_h set_hs]. intros e He. apply in_app_cons in He.
+           destruct He as [->|He]; [exact Hv|apply (j_valid _ _ I e He)].
+        -- cbn [push_clq set_clq clq upd_h set_hs]. apply NoDup_chs_add; auto. apply (j_nd _ _ I).
+      * apply Inv_upd; auto. destruct K.
+        constructor; cbn [h_closed h_closing h_ctxs h_ledger h_ty w_ctxs qreqs h_conn h_wq h_cq h_shut]; auto; hok_tail.
+    + apply Inv_upd; auto. destruct K.
+      constructor; cbn [h_closed h_closing h_ctxs h_ledger h_ty w_ctxs qreqs h_conn h_wq h_cq h_shut]; auto; hok_tail.
+  - apply Inv_upd; auto. destruct K.
+    constructor; cbn [h_closed h_closing h_ctxs h_ledger h_ty w_ctxs qreqs h_conn h_wq h_cq h_shut]; auto; hok_tail.
+Qed.
+
+Lemma run_closing_inv beh l : forall s, Inv l s -> Inv [] (run_closing l s beh).
+Proof.
+  induction l as [|[h|h c] l IH]; intros s I; cbn [run_closing].
+  - exact I.
+  - apply IH. apply finish_close_inv. exact I.
+  - apply IH.
+    assert (Hv : hvalid s h = true) by (apply (j_valid _ _ I (CT h c)); left; reflexivity).
+    apply fp_timer_closed_inv; [|exact Hv].
+    apply Inv_drop_ct with (h := h) (c := c).
+    apply Inv_emit; auto; try discriminate.
+    intros h' [Ha|(r & Hr & _)]; discriminate.
+Qed.
+
+(* ------------------------------------------------------------------ *)
+(* top-level steps                                                    *)
+(* ------------------------------------------------------------------ *)
+Lemma opt_is_true o r : opt_is o r = true -> o = Some r.
+Proof. destruct o; simpl; [|discriminate]. intros H. apply Nat.eqb_eq in H. congruence. Qed.
+
+Lemma req_cb_inv dl s beh r st : Inv dl s -> Inv dl (req_cb s beh r st).
+Proof.
+  intros I. unfold req_cb.
+  destruct (lookup r (owner s)) as [h|] eqn:Lr; [|exact I].
+  destruct (usable s h) eqn:U; [|exact I].
+  apply usable_valid in U. destruct U as [Hv Hc].
+  pose proof (j_h _ _ I h Hv) as K.
+  assert (Hd : h_closed (hget s h) = false) by (eapply HOK_not_closing; eauto).
+  destruct (opt_is (h_conn (hget s h)) r) eqn:E1.
+  - apply opt_is_true in E1.
+    assert (S1 : Step dl s (ccallback (upd_h s h (w_conn None)) beh (EReqCb r st false))).
+    { apply drop_req_step; auto.
+      - apply in_qreqs. auto.
+      - intros r'. rewrite !in_qreqs. cbn. intros [H|H]; [discriminate|auto]. }
+    destruct (Step_valid_open _ _ _ _ S1 Hv Hd) as (V1 & D1).
+    match goal with |- Inv _ (if ?c then _ else _) => destruct c end; [|apply S1].
+    apply flush_and_run_step; auto. apply S1.
+  - destruct (opt_is (h_shut (hget s h)) r) eqn:E2; [|exact I].
+    apply opt_is_true in E2.
+    apply drop_req_step; auto.
+    + apply in_qreqs. auto.
+    + intros r'. rewrite !in_qreqs. cbn. intros [H|[H|[H|H]]]; auto. discriminate.
+Qed.
+
+Lemma batch_inv dl s beh h : Inv dl s -> Inv dl (batch s beh h).
+Proof.
+  intros I. unfold batch.
+  match goal with |- Inv _ (if ?c then _ else _) => destruct c eqn:U end; [|exact I].
+  apply andb_prop in U. destruct U as [U _]. apply usable_valid in U. destruct U as [Hv Hc].
+  pose proof (j_h _ _ I h Hv) as K.
+  assert (Hd : h_closed (hget s h) = false) by (eapply HOK_not_closing; eauto).
+  destruct (h_cq (hget s h)) as [|p pq] eqn:Eq; [exact I|].
+  set (s0 := upd_h (emit s (EIn (OBatch h))) h (w_cq [])).
+  assert (I0 : Inv dl s0).
+  { change s0 with (emit (upd_h s h (w_cq [])) (EIn (OBatch h))).
+    apply Inv_emit_op with (h := h); auto.
+    - apply Inv_upd; auto. eapply HOK_frame; eauto.
+      + intros r. rewrite !in_qreqs. cbn. tauto.
+      + apply (k_led _ _ _ _ K).
+    - rewrite hvalid_upd. exact Hv.
+    - rewrite hget_upd_same by exact Hv. exact Hd. }
+  assert (V0 : hvalid s0 h = true) by (unfold s0; rewrite hvalid_upd; exact Hv).
+  assert (D0 : h_closed (hget s0 h) = false).
+  { unfold s0. rewrite hget_upd_same by exact Hv. exact Hd. }
+  assert (S1 : Step dl s0 (run_cq (p :: pq) h s0 beh)).
+  { apply run_cq_step; auto. intros r st H. change (owner s0) with (owner s).
+    apply (k_own _ _ _ _ K). apply in_qreqs. right. right. left. rewrite Eq.
+    apply in_map_iff. exists (r, st). auto. }
+  destruct (Step_valid_open _ _ _ _ S1 V0 D0) as (V1 & D1).
+  match goal with |- Inv _ (if ?c then _ else _) => destruct c end; [|apply S1].
+  apply drain_closing_step; auto. apply S1.
+Qed.
+
+Lemma h_cb_inv dl s beh h : Inv dl s -> Inv dl (h_cb s beh h).
+Proof.
+  intros I. unfold h_cb. destruct (usable s h) eqn:U; [|exact I].
+  apply usable_valid in U. destruct U as [Hv Hc].
+  assert (Hd : h_closed (hget s h) = false) by (eapply HOK_not_closing; [apply (j_h _ _ I h Hv)|exact Hc]).
+  apply ccallback_step; auto; try discriminate.
+  intros h' [Ha|(r & Hr & _)] _; [|discriminate]. simpl in Ha. inversion Ha; subst. exact Hd.
+Qed.
+
+Lemma stat_done_spec b l :
+  let '(l', r) := stat_done b l in
+  (l = [] <-> l' = []) /\ (l <> [] -> l' <> []).
+Proof.
+  induction l as [|c l IH]; simpl.
+  - split; [tauto|auto].
+  - destruct (stat_done b l) as [l' [r|]].
+    + split; [split; discriminate|intros _; discriminate].
+    + destruct (c_stat c); [destruct b|]; (split; [split; discriminate|intros _; discriminate]).
+Qed.
+
+Lemma fp_stat_inv dl s h : Inv dl s -> Inv dl (fp_stat s h).
+Proof.
+  intros I. unfold fp_stat.
+  match goal with |- Inv _ (if ?c then _ else _) => destruct c eqn:U end; [|exact I].
+  apply andb_prop in U. destruct U as [U Hs]. apply andb_prop in U. destruct U as [Hv Ty].
+  pose proof (j_h _ _ I h Hv) as K.
+  assert (Ne : h_ctxs (hget s h) <> []).
+  { intros E. rewrite E in Hs. discriminate. }
+  assert (Hd : h_closed (hget s h) = false).
+  { destruct (h_closed (hget s h)) eqn:E; auto. destruct (k_closed _ _ _ _ K E). congruence. }
+  set (s0 := emit (emit s (ETouch h)) (EIn (OFpStat h))).
+  assert (I0 : Inv dl s0).
+  { unfold s0. apply Inv_emit_op with (h := h); auto.
+    apply Inv_emit; auto; try discriminate. intros h' [Ha|(r & Hr & _)]; discriminate. }
+  pose proof (stat_done_spec (negb (h_active (hget s h)) || h_closing (hget s h)) (h_ctxs (hget s h))) as SD.
+  destruct (stat_done (negb (h_active (hget s h)) || h_closing (hget s h)) (h_ctxs (hget s h))) as [l r].
+  destruct SD as (_ & SD). specialize (SD Ne).
+  assert (I1 : Inv dl (upd_h s0 h (w_ctxs l))).
+  { apply Inv_upd; auto. pose proof (j_h _ _ I0 h Hv) as K0. destruct K0.
+    change (hget s0 h) with (hget s h) in *.
+    constructor; cbn [h_closed h_closing h_ctxs h_ledger h_ty w_ctxs qreqs h_conn h_wq h_cq h_shut]; auto;
+      try (intros; congruence);
+      try (intros H; destruct (k_ch0 H) as (_ & _ & H'); congruence);
+      try (intros _; apply (k_ty _ _ _ _ K); exact Ne). }
+  destruct r as [[c [|]]|]; try exact I1.
+  apply Inv_push_ct; auto. rewrite hvalid_upd. exact Hv.
+Qed.
+
+Lemma Inv_detach s : Inv [] s -> Inv (clq s) (set_clq s []).
+Proof.
+  intros I. apply Inv_lists with (dl := []); auto.
+  - intros h H. left. rewrite app_nil_r in H. exact H.
+  - intros h c H. left. rewrite app_nil_r in H. exact H.
+  - intros h H. left. rewrite app_nil_r. exact H.
+  - rewrite app_nil_r. apply (j_nd _ _ I).
+Qed.
+
+Lemma cstep_inv s beh o : Inv [] s -> Inv [] (cstep s beh o).
+Proof.
+  intros I. destruct o; cbn [cstep]; try (apply capi_step; exact I).
+  - apply req_cb_inv. exact I.
+  - apply batch_inv. exact I.
+  - apply h_cb_inv. exact I.
+  - apply fp_stat_inv. exact I.
+  - apply run_closing_inv.
+    change (clq s) with (clq (emit s (EIn OPhase))). apply Inv_detach.
+    apply Inv_emit; auto; try discriminate. intros h [Ha|(r & Hr & _)]; discriminate.
+Qed.
+
+Lemma crun_inv beh os : forall s, Inv [] s -> Inv [] (crun s os beh).
+Proof.
+  induction os as [|o os IH]; intros s I; cbn [crun]; auto. apply IH. apply cstep_inv. exact I.
+Qed.
+
+Theorem reachable_inv os beh : Inv [] (crun cinit os beh).
+Proof. apply crun_inv. apply Inv_init. Qed.
+
+(* ------------------------------------------------------------------ *)
+(* what a step appends to the history                                 *)
+(* ------------------------------------------------------------------ *)
+Definition appends (P : cev -> Prop) (s s' : cstate) : Prop :=
+  exists l, hist s' = l ++ hist s /\ Forall P l.
+
+Lemma appends_refl P s : appends P s s.
+Proof. exists []. split; [reflexivity|constructor]. Qed.
+
+Lemma appends_trans P a b c : appends P a b -> appends P b c -> appends P a c.
+Proof.
+  intros (l1 & E1 & F1) (l2 & E2 & F2). exists (l2 ++ l1). split.
+  - rewrite E2, E1, app_assoc. reflexivity.
+  - apply Forall_app. auto.
+Qed.
+
+Lemma appends_emit (P : cev -> Prop) s e : P e -> appends P s (emit s e).
+Proof. intros H. exists [e]. split; [reflexivity|constructor; auto]. Qed.
+
+Lemma appends_same P s s' : hist s' = hist s -> appends P s s'.
+Proof. intros H. exists []. split; [exact H|constructor]. Qed.
+
+Lemma appends_weaken (P Q : cev -> Prop) s s' :
+  (forall e, P e -> Q e) -> appends P s s' -> appends Q s s'.
+Proof.
+  intros H (l & E & F). exists l. split; [exact E|]. eapply Forall_impl; eauto.
+Qed.
+
+Definition not_cb (e : cev) : Prop := is_user_cb e = false.
+Definition not_close (e : cev) : Prop := forall h, e <> ECloseCb h.
+
+Lemma not_cb_not_close e : not_cb e -> not_close e.
+Proof. intros H h E. subst. discriminate. Qed.
+
+Lemma fp_stop_hist s h : hist (fp_stop s h) = hist s.
+Proof.
+  unfold fp_stop. destruct (h_active (hget s h)); [|reflexivity].
+  destruct (h_ctxs (hget s h)) as [|c rest]; [reflexivity|].
+  destruct (Nat.eqb (c_timer c) 1); reflexivity.
+Qed.
+
+Lemma c_close_hist s h : hist (c_close s h) = hist s.
+Proof.
+  unfold c_close. destruct (h_ty (hget s h)); try reflexivity.
+  match goal with |- hist (match ?m with [] => _ | _ => _ end) = _ => destruct m end;
+    cbn [hist push_clq set_clq]; rewrite fp_stop_hist; reflexivity.
+Qed.
+
+(* no API call runs a user callback; in particular uv_close does not *)
+Lemma capi_quiet s o : appends not_cb s (capi s o).
+Proof.
+  destruct o; cbn [capi]; try apply appends_refl;
+    repeat match goal with
+    | |- appends _ _ (if ?c then _ else _) => destruct c
+    | |- appends _ _ (match ?c with _ => _ end) => destruct c
+    end; try apply appends_refl;
+    try (apply appends_emit; reflexivity);
+    (eexists [_]; split;
+     [cbn [hist emit]; rewrite ?c_close_hist, ?fp_stop_hist; reflexivity
+     |constructor; [reflexivity|constructor]]).
+Qed.
+
+Lemma capis_quiet os : forall s, appends not_cb s (capis s os).
+Proof.
+  induction os as [|o os IH]; intros s; cbn [capis]; [apply appends_refl|].
+  eapply appends_trans; [apply capi_quiet|apply IH].
+Qed.
+
+Lemma ccallback_nocl s beh e : not_close e -> appends not_close s (ccallback s beh e).
+Proof.
+  intros H. unfold ccallback.
+  eapply appends_trans; [|eapply appends_weaken; [apply not_cb_not_close|apply capis_quiet]].
+  exists [e]. split; [reflexivity|constructor; auto].
+Qed.
+
+Lemma reqcb_not_close r st cl : not_close (EReqCb r st cl).
+Proof. intros h. discriminate. Qed.
+
+Lemma run_cq_nocl beh h l : forall s, appends not_close s (run_cq l h s beh).
+Proof.
+  induction l as [|[r st] l IH]; intros s; cbn [run_cq]; [apply appends_refl|].
+  eapply appends_trans; [apply ccallback_nocl; apply reqcb_not_close|apply IH].
+Qed.
+
+Lemma flush_nocl s beh h : appends not_close s (flush_and_run s beh h).
+Proof.
+  unfold flush_and_run. eapply appends_trans; [|apply run_cq_nocl]. apply appends_same. reflexivity.
+Qed.
+
+Lemma drain_nocl s beh h : appends not_close s (drain_closing s beh h).
+Proof.
+  unfold drain_closing. destruct (h_shut (hget s h)); [|apply appends_refl].
+  eapply appends_trans; [|apply ccallback_nocl; apply reqcb_not_close]. apply appends_same. reflexivity.
+Qed.
+
+(* close callbacks are delivered by the closing phase only *)
+Lemma cstep_nocl s beh o : o <> OPhase -> appends not_close s (cstep s beh o).
+Proof.
+  intros Hne. destruct o; cbn [cstep]; try congruence;
+    try (eapply appends_weaken; [apply not_cb_not_close|apply capi_quiet]).
+  - unfold req_cb. destruct (lookup r (owner s)) as [h|]; [|apply appends_refl].
+    destruct (usable s h); [|apply appends_refl].
+    destruct (opt_is (h_conn (hget s h)) r).
+    + match goal with |- appends _ _ (if ?c then _ else _) => destruct c end.
+      * eapply appends_trans; [|apply flush_nocl].
+        eapply appends_trans; [|apply ccallback_nocl; apply reqcb_not_close]. apply appends_same. reflexivity.
+      * eapply appends_trans; [|apply ccallback_nocl; apply reqcb_not_close]. apply appends_same. reflexivity.
+    + destruct (opt_is (h_shut (hget s h)) r); [|apply appends_refl].
+      eapply appends_trans; [|apply ccallback_nocl; apply reqcb_not_close]. apply appends_same. reflexivity.
+  - unfold batch. match goal with |- appends _ _ (if ?c then _ else _) => destruct c end; [|apply appends_refl].
+    destruct (h_cq (hget s h)) as [|p pq]; [apply appends_refl|].
+    match goal with |- appends _ _ (if ?c then _ else _) => destruct c end.
+    + eapply appends_trans; [|apply drain_nocl]. eapply appends_trans; [|apply run_cq_nocl].
+      exists [EIn (OBatch h)]. split; [reflexivity|]. constructor; [intros h'; discriminate|constructor].
+    + eapply appends_trans; [|apply run_cq_nocl].
+      exists [EIn (OBatch h)]. split; [reflexivity|]. constructor; [intros h'; discriminate|constructor].
+  - unfold h_cb. destruct (usable s h); [|apply appends_refl]. apply ccallback_nocl. intros h'. discriminate.
+  - unfold fp_stat. match goal with |- appends _ _ (if ?c then _ else _) => destruct c end; [|apply appends_refl].
+    destruct (stat_done _ _) as [l [[c [|]]|]];
+      (exists [EIn (OFpStat h); ETouch h]; split; [reflexivity|];
+       constructor; [intros h'; discriminate|constructor; [intros h'; discriminate|constructor]]).
+Qed.
+
+(* ------------------------------------------------------------------ *)
+(* the clauses of the property on traces                              *)
+(* ------------------------------------------------------------------ *)
+Definition final (os : list cop) (beh : nat -> list cop) : cstate := crun cinit os beh.
+
+Lemma ctrace_final os beh : ctrace os beh = rev (hist (final os beh)).
+Proof. reflexivity. Qed.
+
+Lemma trace_split_hist os beh pre e post :
+  ctrace os beh = pre ++ e :: post -> hist (final os beh) = rev post ++ e :: rev pre.
+Proof.
+  rewrite ctrace_final. intros H. apply (f_equal (@rev cev)) in H.
+  rewrite rev_involutive in H. rewrite H, rev_app_distr. simpl. rewrite <- app_assoc. reflexivity.
+Qed.
+
+(* uv_close itself runs no callback *)
+Theorem close_not_reentrant s h :
+  exists l, hist (capi s (OClose h)) = l ++ hist s /\ Forall (fun e => is_user_cb e = false) l.
+Proof. apply (capi_quiet s (OClose h)). Qed.
+
+(* ... nor does any other API call, also when made from inside a callback *)
+Theorem api_not_reentrant s os :
+  exists l, hist (capis s os) = l ++ hist s /\ Forall (fun e => is_user_cb e = false) l.
+Proof. apply (capis_quiet os s). Qed.
+
+(* nothing about h after its close callback; in particular no second one *)
+Theorem nothing_after_close_cb os beh pre h post e :
+  ctrace os beh = pre ++ ECloseCb h :: post -> In e post -> ~ about (final os beh) e h.
+Proof.
+  intros Ht He. apply in_split in He. destruct He as (p1 & p2 & ->).
+  assert (Hh : hist (final os beh) = rev p2 ++ e :: (rev p1 ++ ECloseCb h :: rev pre)).
+  { replace (pre ++ ECloseCb h :: p1 ++ e :: p2) with ((pre ++ ECloseCb h :: p1) ++ e :: p2) in Ht
+      by (rewrite <- app_assoc; reflexivity).
+    apply trace_split_hist in Ht. rewrite Ht, rev_app_distr. simpl. rewrite <- app_assoc. reflexivity. }
+  apply (j_na _ _ (reachable_inv os beh) _ _ _ h Hh).
+  apply in_or_app. right. left. reflexivity.
+Qed.
+
+Theorem close_cb_at_most_once os beh pre h post :
+  ctrace os beh = pre ++ ECloseCb h :: post -> ~ In (ECloseCb h) pre /\ ~ In (ECloseCb h) post.
+Proof.
+  intros Ht. split.
+  - intros Hin. apply in_split in Hin. destruct Hin as (p1 & p2 & ->).
+    rewrite <- app_assoc in Ht. simpl in Ht.
+    apply (nothing_after_close_cb os beh p1 h (p2 ++ ECloseCb h :: post) (ECloseCb h) Ht).
+    + apply in_or_app. right. left. reflexivity.
+    + left. reflexivity.
+  - intros Hin. apply (nothing_after_close_cb os beh pre h post (ECloseCb h) Ht Hin). left. reflexivity.
+Qed.
+
+(* the close callback is delivered by the closing phase and by nothing else *)
+Theorem close_cb_in_closing_phase_only s beh o :
+  o <> OPhase ->
+  exists l, hist (cstep s beh o) = l ++ hist s /\ Forall (fun e => forall h, e <> ECloseCb h) l.
+Proof. apply cstep_nocl. Qed.
+
+(* a delivered close callback = the CLOSED flag of the model *)
+Theorem close_cb_iff_closed os beh h :
+  In (ECloseCb h) (ctrace os beh) <->
+  (hvalid (final os beh) h = true /\ h_closed (hget (final os beh) h) = true).
+Proof.
+  rewrite ctrace_final, <- in_rev. pose proof (reachable_inv os beh) as I. split.
+  - intros H. assert (Hv := j_evv _ _ I h H). split; [exact Hv|].
+    apply (k_ev _ _ _ _ (j_h _ _ I h Hv)). exact H.
+  - intros (Hv & Hc). apply (k_ev _ _ _ _ (j_h _ _ I h Hv)). exact Hc.
+Qed.
+
+(* whenever the closing queue is empty, every handle on which uv_close was
+   called has had its close callback -- except an fs_poll handle that still
+   has a context alive *)
+Theorem close_cb_eventually_partial os beh h :
+  let s := final os beh in
+  clq s = [] -> hvalid s h = true -> h_closing (hget s h) = true ->
+  In (ECloseCb h) (ctrace os beh) \/ (h_ty (hget s h) = TFsPoll /\ h_ctxs (hget s h) <> []).
+Proof.
+  intros s Hq Hv Hc. pose proof (reachable_inv os beh) as I. fold s in I.
+  pose proof (j_h _ _ I h Hv) as K.
+  destruct (h_closed (hget s h)) eqn:Ed.
+  - left. apply close_cb_iff_closed. split; assumption.
+  - destruct (k_owed _ _ _ _ K Hc Ed) as [H|H].
+    + change ([] ++ clq (crun cinit os beh)) with (clq s) in H. rewrite Hq in H. destruct H.
+    + right. split; [apply (k_ty _ _ _ _ K H)|exact H].
+Qed.
+
+(* the full statement fails for fs_poll: start, stop, start again while the
+   first stat is in flight, both stats complete, close: the superseded
+   context keeps its timer, nothing is queued, nothing is in flight, and the
+   close callback is never delivered *)
+Definition refuting_script : list cop :=
+  [OInit TFsPoll; OFpStart 0; OFpStop 0; OFpStart 0; OFpStat 0; OFpStat 0; OClose 0;
+   OPhase; OPhase; OPhase].
+
+Theorem close_cb_eventually_refuted :
+  exists os beh h,
+    let s := final os beh in
+    clq s = [] /\ hvalid s h = true /\ h_closing (hget s h) = true /\
+    has_stat (h_ctxs (hget s h)) = false /\ ~ In (ECloseCb h) (ctrace os beh).
+Proof.
+  exists refuting_script, (fun _ => []), 0%nat. vm_compute.
+  repeat split; try reflexivity. intros H.
+  repeat (destruct H as [H|H]; [discriminate|]). exact H.
+Qed.
+
+(* everything the handle owned is released when the close callback runs *)
+Theorem resources_released os beh :
+  (forall h r, ~ In (ELeak h r) (ctrace os beh)) /\
+  (forall h, hvalid (final os beh) h = true -> h_closing (hget (final os beh) h) = true ->
+             h_ledger (hget (final os beh) h) = []).
+Proof.
+  pose proof (reachable_inv os beh) as I. split.
+  - intros h r H. rewrite ctrace_final, <- in_rev in H. apply (j_noleak _ _ I h r H).
+  - intros h Hv Hc. apply (k_led _ _ _ _ (j_h _ _ I h Hv) Hc).
+Qed.
+
+Example close_cb_eventually_partial_nontrivial :
+  let os := [OInit TStream; OSubmit 0 1 0; OSubmit 0 2 1; OSubmit 0 3 1; OSubmit 0 4 2; ODone 2 7;
+             OInit TFsPoll; OFpStart 1; OClose 1; OClose 0; OPhase; OFpStat 1; OPhase; OPhase] in
+  ctrace os (fun _ => []) =
+  [EIn (OInit TStream); EIn (OSubmit 0 1 0); EIn (OSubmit 0 2 1); EIn (OSubmit 0 3 1);
+   EIn (OSubmit 0 4 2); EIn (ODone 2 7); EIn (OInit TFsPoll); EIn (OFpStart 1); EIn (OClose 1);
+   EIn (OClose 0); EIn OPhase; EReqCb 1 UV_ECANCELED true; EReqCb 2 7 true;
+   EReqCb 3 UV_ECANCELED true; EReqCb 4 UV_ECANCELED true; ECloseCb 0;
+   ETouch 1; EIn (OFpStat 1); EIn OPhase; ETouch 1; EIn OPhase; ECloseCb 1].
+Proof. vm_compute. reflexivity. Qed.
